@@ -676,6 +676,9 @@ def log10(p):
     return ln(p) * _ln_const(10).pow(-1)
 
 
+NO_SHANNON = False       # True: brackets nested in a bracket's argument are left where they are (no expansion)
+
+
 def mk_ind(op, p):
     """Iverson bracket [p op]; real comparisons are normalised to '<0' / '==0' with a
     positive-scale-invariant key; brackets nested in the argument are removed by
@@ -686,6 +689,8 @@ def mk_ind(op, p):
         if a[0] == 'ind':
             inner = a
             break
+    if inner is not None and NO_SHANNON:
+        inner = None          # (the caller decides the nested brackets first - an ordering of the points compared - and re-forms this one afterwards)
     if inner is not None:
         p0, p1 = Poly(), Poly()
         for m, c in p.t.items():
